@@ -173,6 +173,22 @@ func cmdCheck(args []string) int {
 	for i, r := range results {
 		pk := jobs[i].h.Pkg
 		for _, c := range r.Cex {
+			if c.Label == labelTerminates {
+				// unwinding assertion: the input of a path that ran past the per-path step bound is run natively on
+				// its own under a time limit: a hang is a violation; a run that ends leaves the job inconclusive (bound)
+				if *noReplay {
+					continue
+				}
+				outs, _, _ := e.nativeReplay(pk, []*CexRec{c}, nonTerminationTimeout)
+				if o := outs[0]; o != nil && o.timeout {
+					c.Confirmed = true
+					c.Native = fmt.Sprintf("native run did not end within %s\n", nonTerminationTimeout) + strings.Join(o.lines, "\n")
+					allCex = append(allCex, c)
+				} else {
+					fmt.Printf("note: %s[%d]: a path ran past the step bound but its input ends natively (path longer than the bound, not a hang)\n", r.Harness, r.Shard)
+				}
+				continue
+			}
 			if c.Vars != nil || c.Choices != nil {
 				byPkg[pk] = append(byPkg[pk], c)
 			}
@@ -315,6 +331,10 @@ func cmdCheck(args []string) int {
 	return exit
 }
 
+// nonTerminationTimeout: how long the native run of a path that exceeded the per-path step bound may take
+// (including the build of the test binary) before it is reported as a hang.
+const nonTerminationTimeout = 90 * time.Second
+
 func sameObs(a, b []string) bool {
 	if len(a) != len(b) {
 		return false
@@ -356,7 +376,11 @@ func cmdReplay(args []string) int {
 		fmt.Fprintf(os.Stderr, "unknown harness %s\n", c.Harness)
 		return 2
 	}
-	outs, raw, err := e.nativeReplay(h.Pkg, []*CexRec{&c}, 10*time.Minute)
+	limit := 10 * time.Minute
+	if c.Label == labelTerminates {
+		limit = nonTerminationTimeout
+	}
+	outs, raw, err := e.nativeReplay(h.Pkg, []*CexRec{&c}, limit)
 	if outs[0] == nil {
 		fmt.Println(raw)
 		fmt.Println("replay did not run:", err)
